@@ -15,6 +15,9 @@
 -/
 import EpsieProps.C06
 import EpsieProps.C17
+import EpsieProps.C18
+import EpsieProps.C08
+import EpsieProofs.LiftGuard
 namespace Epsie.C05
 open Chain
 
@@ -226,5 +229,252 @@ theorem C05_incomplete_state_counterexample :
             raw := 4, startStep := 1, events := [] }, ?_, rfl, ?_⟩
   · intro _; exact ⟨rfl, rfl, rfl⟩
   · decide
+
+
+/-! ### Every reachable state resumes exactly
+
+The hypotheses of `C05_resume_bisim` are not assumptions about some ideal state: every state a
+sampler can reach from construction — by setting start positions, iterating (with sweeps,
+resets after swaps, annealing), clearing, growing and loading well-shaped saved states — meets
+them, provided every proposal class saves its counter (`savesNsteps`, the table obligation) and
+only adaptive classes have an adaptation window. -/
+
+/-- A saved proposal list has the shape `PropSt.save` produces for these configurations:
+    non-adaptive proposals carry no adaptive payload. -/
+def ShapeOK : List PropCfg → List SavedProp → Prop
+  | cfg :: cs, s :: ss => (cfg.adaptive = false → s.startStep = none ∧ s.events = none) ∧ ShapeOK cs ss
+  | _, _ => True
+
+theorem shapeOK_save (ps : List PropSt) : ShapeOK (ps.map (·.cfg)) (ps.map PropSt.save) := by
+  induction ps with
+  | nil => trivial
+  | cons p ps ih =>
+    refine ⟨?_, ih⟩
+    intro ha
+    simp [PropSt.save, ha]
+
+/-- What every level of a reachable chain satisfies. -/
+def LevelWF (cfgs : List PropCfg) (l : Chain) : Prop :=
+  l.props.map (·.cfg) = cfgs ∧ ∀ p ∈ l.props, PropWF p
+
+theorem update_cfg (p : PropSt) (a : Bool) (r : AR) (pos : List Val) : (p.update a r pos).cfg = p.cfg := rfl
+
+theorem reset_cfg (p : PropSt) : p.reset.cfg = p.cfg := by
+  unfold PropSt.reset; split <;> rfl
+
+theorem clear_props (c : Chain) : c.clear.props = c.props := by
+  unfold clear; split <;> rfl
+
+theorem loadProps_wf : ∀ (ps : List PropSt) (ss : List SavedProp),
+    (∀ p ∈ ps, PropWF p) → ShapeOK (ps.map (·.cfg)) ss →
+    (loadProps ps ss).map (·.cfg) = ps.map (·.cfg) ∧ ∀ p ∈ loadProps ps ss, PropWF p
+  | [], ss, _, _ => by cases ss <;> simp [loadProps]
+  | p :: ps, [], h, _ => by simpa [loadProps] using h
+  | p :: ps, s :: ss, h, hsh => by
+    obtain ⟨h1, h2⟩ := hsh
+    obtain ⟨i1, i2⟩ := loadProps_wf ps ss (fun q hq => h q (by simp [hq])) h2
+    refine ⟨by simp only [loadProps, List.map_cons, i1]; rfl, ?_⟩
+    intro q hq
+    simp only [loadProps, List.mem_cons] at hq
+    rcases hq with rfl | hq
+    · intro ha
+      have ha' : p.cfg.adaptive = false := ha
+      obtain ⟨w1, w2, w3⟩ := h p (by simp) ha'
+      obtain ⟨s1, s2⟩ := h1 ha'
+      refine ⟨?_, ?_, w3⟩
+      · simp [PropSt.load, s1, w1]
+      · simp [PropSt.load, s2, w2]
+    · exact i2 q hq
+
+theorem levelWF_apply (cfgs : List PropCfg) (c : Chain) (op : Chain.Op)
+    (hg : ∀ s, op = Chain.Op.load s → ShapeOK cfgs s.props) (h : LevelWF cfgs c) :
+    LevelWF cfgs (c.apply op) := by
+  obtain ⟨h1, h2⟩ := h
+  cases op with
+  | start pos e =>
+    simp only [Chain.apply]; unfold setStart
+    split
+    · exact ⟨h1, h2⟩
+    · exact ⟨h1, h2⟩
+  | step i =>
+    simp only [Chain.apply]
+    cases hs : c.step i with
+    | none => exact ⟨h1, h2⟩
+    | some c' =>
+      obtain ⟨cur, _, hp⟩ := C18.C15_others hs
+      simp only [Option.getD_some]
+      refine ⟨?_, ?_⟩
+      · rw [hp, List.map_map, ← h1]; rfl
+      · intro p hp'
+        rw [hp] at hp'
+        simp only [List.mem_map] at hp'
+        obtain ⟨q, hq, rfl⟩ := hp'
+        exact propWF_update q (h2 q hq) _ _ _
+  | clear => simp only [Chain.apply]; rw [LevelWF, clear_props]; exact ⟨h1, h2⟩
+  | grow n => exact ⟨h1, h2⟩
+  | extend n => exact ⟨h1, h2⟩
+  | load s =>
+    have hsh := hg s rfl
+    simp only [Chain.apply, Chain.load, LevelWF]
+    rw [clear_props]
+    rw [← h1] at hsh
+    obtain ⟨i1, i2⟩ := loadProps_wf c.props s.props h2 hsh
+    exact ⟨by rw [i1, h1], i2⟩
+  | rewrite st =>
+    simp only [Chain.apply, LevelWF]
+    rw [(rewriteLast_fields c st).2.2.2.2.1]; exact ⟨h1, h2⟩
+  | reset =>
+    simp only [Chain.apply, resetProposals, LevelWF]
+    refine ⟨?_, ?_⟩
+    · rw [List.map_map, ← h1]; congr 1; funext p; exact reset_cfg p
+    · intro p hp
+      simp only [List.mem_map] at hp
+      obtain ⟨q, hq, rfl⟩ := hp
+      exact propWF_reset q (h2 q hq)
+
+theorem setStarts_length : ∀ (ls : List Chain) (xs : List (List Val × Eval)),
+    (PTChain.setStarts ls xs).length = ls.length
+  | [], xs => by cases xs <;> rfl
+  | _ :: _, [] => rfl
+  | l :: ls, (_, _) :: xs => by simp [PTChain.setStarts, setStarts_length ls xs]
+
+/-- No operation changes the number of levels or the static configuration of a chain. -/
+theorem static_apply (c : PTChain) (op : PTChain.Op) :
+    (c.apply op).levels.length = c.levels.length ∧ (c.apply op).s = c.s ∧
+    (c.apply op).resetAfterSwap = c.resetAfterSwap ∧ (c.apply op).dynamic = c.dynamic := by
+  cases op with
+  | start xs => exact ⟨setStarts_length _ _, rfl, rfl, rfl⟩
+  | step i =>
+    simp only [PTChain.apply]
+    cases hs : c.step i with
+    | none => exact ⟨rfl, rfl, rfl, rfl⟩
+    | some c' =>
+      simp only [Option.getD_some]
+      have hn := C18.step_ntemps hs
+      unfold PTChain.step at hs
+      simp only [bind, Option.bind] at hs
+      cases h1 : PTChain.stepLevels c.levels i.levels with
+      | none => simp [h1] at hs
+      | some ls =>
+        simp only [h1] at hs
+        refine ⟨hn, ?_⟩
+        split at hs
+        · unfold PTChain.swapTemperatures at hs
+          split at hs
+          · simp only [Option.some.injEq] at hs
+            subst hs
+            unfold PTChain.afterSweep
+            simp only
+            split <;> exact ⟨rfl, rfl, rfl⟩
+          · simp at hs
+        · simp [pure] at hs; subst hs; exact ⟨rfl, rfl, rfl⟩
+  | clear => simp [PTChain.apply, PTChain.clear]
+  | extend n => simp [PTChain.apply, PTChain.extendFor, PTChain.setScratchlen]
+  | load sv => simp [PTChain.apply, PTChain.load, C17.loadLevels_length]
+
+theorem static_runOps (c : PTChain) (ops : List PTChain.Op) :
+    (PTChain.runOps c ops).levels.length = c.levels.length ∧ (PTChain.runOps c ops).s = c.s ∧
+    (PTChain.runOps c ops).resetAfterSwap = c.resetAfterSwap ∧
+    (PTChain.runOps c ops).dynamic = c.dynamic := by
+  induction ops generalizing c with
+  | nil => exact ⟨rfl, rfl, rfl, rfl⟩
+  | cons op ops ih =>
+    obtain ⟨a1, a2, a3, a4⟩ := ih (c.apply op)
+    obtain ⟨b1, b2, b3, b4⟩ := static_apply c op
+    exact ⟨a1.trans b1, a2.trans b2, a3.trans b3, a4.trans b4⟩
+
+theorem freshFor_of_cfgs (cfgs : List PropCfg) (cid : Nat) : ∀ (bs : List Rat) (ss : List Chain),
+    bs.length = ss.length → (∀ l ∈ ss, l.props.map (·.cfg) = cfgs) →
+    FreshFor (bs.map fun b => Chain.fresh b cfgs cid) ss
+  | [], [], _, _ => trivial
+  | b :: bs, s :: ss, hl, h => by
+    refine ⟨⟨rfl, rfl, ?_⟩, freshFor_of_cfgs cfgs cid bs ss (by simpa using hl)
+      (fun l hl => h l (by simp [hl]))⟩
+    have := h s (by simp)
+    simp only [Chain.fresh]
+    rw [← this, List.map_map]; rfl
+  | [], _ :: _, hl, _ => by simp at hl
+  | _ :: _, [], hl, _ => by simp at hl
+
+/-- RESUME FROM ANY REACHABLE STATE. `hist` is everything that happened to the source sampler's
+    chain since it was built (`PTChain.fresh`: any ladder, swap interval, proposal list,
+    `reset_after_swap`, annealing flag): start positions, iterations with their sweeps, clears,
+    growth, loads of well-shaped states. If the state can be saved at all (`hsv`), then a newly
+    built chain of the same configuration that loads it behaves, under EVERY continuation `ops`,
+    exactly like the source continuing — the conclusion of `C05_resume_bisim`. The only
+    assumptions are about the proposal classes: each saves its counter and only adaptive
+    classes have a window (the `StateComplete` table obligation + translator). -/
+theorem C05_resume_reachable (betas : List Rat) (s : Nat) (cfgs : List PropCfg) (reset dyn : Bool)
+    (cid cid' : Nat)
+    (hcfg : ∀ cfg ∈ cfgs, cfg.savesNsteps = true ∧ (cfg.adaptive = false → cfg.window = .none))
+    (hist : List PTChain.Op) (hg : ∀ op ∈ hist, op.guarded (fun sv => ShapeOK cfgs sv.props))
+    (svs : List Saved)
+    (hsv : (PTChain.runOps (PTChain.fresh betas s cfgs reset dyn cid) hist).save = some svs)
+    (ops : List C06.Op) :
+    PSfx (C06.runOps ((PTChain.fresh betas s cfgs reset dyn cid').load svs) ops)
+         (C06.runOps (PTChain.runOps (PTChain.fresh betas s cfgs reset dyn cid) hist) (C06.strip ops)) ∧
+    ((C06.runOps ((PTChain.fresh betas s cfgs reset dyn cid').load svs) ops).levels.map Chain.save =
+       (C06.runOps (PTChain.runOps (PTChain.fresh betas s cfgs reset dyn cid) hist)
+          (C06.strip ops)).levels.map Chain.save) := by
+  have hfresh : ∀ cid, ∀ l ∈ (PTChain.fresh betas s cfgs reset dyn cid).levels, LevelWF cfgs l := by
+    intro cid l hl
+    simp only [PTChain.fresh, List.mem_map] at hl
+    obtain ⟨b, _, rfl⟩ := hl
+    refine ⟨by simp only [Chain.fresh, List.map_map]; exact List.map_id' cfgs |>.symm ▸ (by
+      induction cfgs with
+      | nil => rfl
+      | cons c cs ih => simp), ?_⟩
+    intro p hp
+    simp only [Chain.fresh, List.mem_map] at hp
+    obtain ⟨cfg, hc, rfl⟩ := hp
+    exact propWF_fresh cfg (hcfg cfg hc).2
+  have hwf := lift_runOpsG (LevelWF cfgs) (fun sv => ShapeOK cfgs sv.props)
+    (fun c op hgd h => levelWF_apply cfgs c op hgd h) (fun c b h => h) (hfresh cid) hist hg
+  have hinv := lift_runOps Chain.Inv (fun c op h => inv_apply h op) (fun c b h => ⟨h.1, h.2⟩)
+    (c := PTChain.fresh betas s cfgs reset dyn cid) (by
+      intro l hl
+      simp only [PTChain.fresh, List.mem_map] at hl
+      obtain ⟨b, _, rfl⟩ := hl
+      exact inv_fresh b cfgs cid) hist
+  obtain ⟨hlen, hs', hr', hd'⟩ := static_runOps (PTChain.fresh betas s cfgs reset dyn cid) hist
+  refine C05_resume_bisim _ _ svs ?_ hsv ?_ ⟨?_, C17.C17_fresh_coherent _ _ _ _ _ _⟩ ?_ ops
+  · intro l hl
+    obtain ⟨w1, w2⟩ := hwf l hl
+    refine ⟨hinv l hl, w2, ?_⟩
+    intro p hp
+    have : p.cfg ∈ cfgs := by rw [← w1]; exact List.mem_map_of_mem hp
+    exact (hcfg _ this).1
+  · have : (PTChain.fresh betas s cfgs reset dyn cid').levels =
+        betas.map fun b => Chain.fresh b cfgs cid' := rfl
+    rw [this]
+    apply freshFor_of_cfgs
+    · rw [hlen]; simp [PTChain.fresh]
+    · intro l hl; exact (hwf l hl).1
+  · exact C17.C17_coherent _ hist (C17.C17_fresh_coherent _ _ _ _ _ _)
+  · exact ⟨hs'.symm, hr'.symm, hd'.symm⟩
+
+/-! ### Non-vacuity: a concrete history (start, growth, an iteration with an accepted move, a
+rejected move and an exchanging sweep) ends in a state that can be saved, its loads are guarded,
+its proposal configuration meets `hcfg` — so `C05_resume_reachable` applies to it, and the state
+`PropSt.save` produces always has the guarded shape. -/
+
+example : ∃ svs, (PTChain.runOps (PTChain.fresh [1, 1/2] 1 [C08.cfg0]) C08.ops0).save = some svs := by
+  have h : ((PTChain.runOps (PTChain.fresh [1, 1/2] 1 [C08.cfg0]) C08.ops0).save).isSome = true := by
+    decide +kernel
+  exact Option.isSome_iff_exists.mp h
+
+example : ∀ op ∈ C08.ops0, op.guarded (fun sv => ShapeOK [C08.cfg0] sv.props) := by
+  intro op h
+  simp only [C08.ops0, List.mem_cons, List.not_mem_nil, or_false] at h
+  rcases h with rfl | rfl | rfl <;> trivial
+
+example : ∀ cfg ∈ [C08.cfg0], cfg.savesNsteps = true ∧ (cfg.adaptive = false → cfg.window = .none) := by
+  intro cfg h; simp at h; subst h; exact ⟨rfl, fun _ => rfl⟩
+
+example (l : Chain) (sv : Saved) (h : l.save = some sv) : ShapeOK (l.props.map (·.cfg)) sv.props := by
+  unfold save at h
+  split at h
+  · simp only [Option.some.injEq] at h; subst h; exact shapeOK_save _
+  · simp at h
 
 end Epsie.C05
